@@ -1,5 +1,6 @@
 -- root of the library: every property module (each imports its models, generated tables and lemmas)
 import ConjureVerif.Props.C01
+import ConjureVerif.Props.C04
 import ConjureVerif.Props.C05
 import ConjureVerif.Props.C06
 import ConjureVerif.Props.C07
